@@ -36,8 +36,10 @@ PieceFlat(p, c) ==
 RECURSIVE FlatAll(_, _)
 FlatAll(ps, c) == IF ps = <<>> THEN <<>> ELSE PieceFlat(Head(ps), c) \o FlatAll(Tail(ps), c)
 
-\* length of a piece after line-break normalisation
-NLen(p, c) == Len(Norm(PieceFlat(p, c), TRUE))
+\* length of a piece after line-break normalisation (\r\n counts once)
+NLen(p, c) ==
+    LET f == PieceFlat(p, c)
+    IN  Len(f) - Cardinality({i \in 1..Len(f) : SecondHalf(f, i)})
 
 \* line-break normalisation may be done piece by piece: no \r\n straddles
 \* a piece boundary, raw blocks are closed, endraw only closes a raw block
@@ -56,84 +58,90 @@ WellFormed(ps, c) ==
 
 (* -- where the tags are (positions in the normalised source) -------------- *)
 \* inside a raw block nothing but its endraw is a tag
-RECURSIVE Occ(_, _, _, _)
-Occ(ps, c, off, inRaw) ==
-    IF ps = <<>> THEN <<>>
-    ELSE LET p == Head(ps)
+RECURSIVE Occ(_, _, _, _, _)
+Occ(ps, c, j, off, inRaw) ==
+    IF j > Len(ps) THEN <<>>
+    ELSE LET p == ps[j]
              n == NLen(p, c)
              isTag == IF inRaw THEN p.k = "rawclose" ELSE p.k # "text"
          IN  (IF isTag THEN <<[k |-> p.k, l |-> p.l, r |-> p.r, s |-> off, e |-> off + n]>>
               ELSE <<>>)
-             \o Occ(Tail(ps), c, off + n, IF isTag THEN p.k = "rawopen" ELSE inRaw)
+             \o Occ(ps, c, j + 1, off + n, IF isTag THEN p.k = "rawopen" ELSE inRaw)
 
-Occurrences(ps, c) == Occ(ps, c, 1, FALSE)
+Occurrences(ps, c) == Occ(ps, c, 1, 1, FALSE)
 
 DeclSrc(ps, c) == Norm(FlatAll(ps, c), c.keep)
 
 (* -- the documented whitespace rules ------------------------------------- *)
 LineTags == {"lstmt", "lcomment"}
 
-\* what a tag removes on its LEFT.  pe = end of everything the previous tag
-\* consumed (1 at the start of the template).
-LeftSet(S, c, o, pe) ==
-    IF o.k \in LineTags THEN {}
+\* How many characters a tag removes directly on its LEFT.  pe = end of
+\* everything the previous tag consumed (1 at the start of the template).
+LeftLen(S, c, o, pe) ==
+    IF o.k \in LineTags THEN 0
     ELSE IF o.l = "-" THEN
         \* "-" removes all whitespace directly before the tag
-        RunStart(S, o.s, pe, WsChars)..(o.s - 1)
+        o.s - RunStart(S, o.s, pe, WsChars)
     ELSE IF o.l # "+" /\ c.lstrip /\ o.k # "var" THEN
-        \* lstrip_blocks: whitespace from the start of the line up to the
+        \* lstrip_blocks: the whitespace from the start of the line up to the
         \* tag, when the line holds nothing else before the tag
         LET ls == LineStartOf(S, o.s)
-        IN  IF ls >= pe /\ ls < o.s /\ AllIn(S, ls, o.s, WsChars)
-            THEN ls..(o.s - 1) ELSE {}
-    ELSE {}
+        IN  IF ls >= pe /\ AllIn(S, ls, o.s, WsChars) THEN o.s - ls ELSE 0
+    ELSE 0
 
-\* what a tag removes on its RIGHT
-RightSet(S, c, o) ==
-    IF o.k \in LineTags THEN {}
+\* How many characters a tag removes directly on its RIGHT
+RightLen(S, c, o) ==
+    IF o.k \in LineTags THEN 0
     ELSE IF o.r = "-" THEN
-        o.e..(RunEnd(S, o.e, WsChars) - 1)
+        \* "-" removes all whitespace directly after the tag
+        RunEnd(S, o.e, WsChars) - o.e
     ELSE IF /\ o.r # "+" /\ c.trim
             /\ o.k \in {"block", "comment", "rawclose"}   \* not raw-open, never a variable
             /\ o.e <= Len(S) /\ S[o.e] = "n"
-         THEN {o.e}               \* trim_blocks: the first newline after the tag
-    ELSE {}
+         THEN 1                   \* trim_blocks: the first newline after the tag
+    ELSE 0
 
-RECURSIVE RemFrom(_, _, _, _)
-RemFrom(S, c, occ, pe) ==
-    IF occ = <<>> THEN [L |-> {}, R |-> {}]
-    ELSE LET o == Head(occ)
-             L == LeftSet(S, c, o, pe)
-             R == RightSet(S, c, o)
-             rest == RemFrom(S, c, Tail(occ), IF R = {} THEN o.e ELSE MaxOf(R) + 1)
-         IN  [L |-> L \cup rest.L, R |-> R \cup rest.R]
+\* the removed positions, as two sets (left of a tag / right of a tag)
+RECURSIVE RemFrom(_, _, _, _, _)
+RemFrom(S, c, occ, j, pe) ==
+    IF j > Len(occ) THEN [L |-> {}, R |-> {}]
+    ELSE LET o == occ[j]
+             nl == LeftLen(S, c, o, pe)
+             nr == RightLen(S, c, o)
+             rest == RemFrom(S, c, occ, j + 1, o.e + nr)
+         IN  [L |-> ((o.s - nl)..(o.s - 1)) \cup rest.L, R |-> (o.e..(o.e + nr - 1)) \cup rest.R]
 
-Removed(S, c, occ) == RemFrom(S, c, occ, 1)
+Removed(S, c, occ) == RemFrom(S, c, occ, 1, 1)
 
-TagIdx(S, occ) == UNION {o.s..(o.e - 1) : o \in {occ[j] : j \in 1..Len(occ)}} \cap 1..Len(S)
-VarStarts(occ) == {occ[j].s : j \in {j \in 1..Len(occ) : occ[j].k = "var"}}
+TagIdx(S, occ) == UNION {occ[j].s..(occ[j].e - 1) : j \in 1..Len(occ)} \cap 1..Len(S)
 
 (***************************************************************************)
-(* Rendered output as a sequence of SOURCE INDICES (provenance): index j   *)
-(* of the normalised source appears iff it is outside every tag and not    *)
-(* removed; 0 marks the value printed by a variable tag.                   *)
+(* Rendered output as a sequence of SOURCE INDICES (provenance): the text  *)
+(* between the tags minus what the tags remove; 0 marks the value printed  *)
+(* by a variable tag.  (A raw body is the text between its two tags.)      *)
 (***************************************************************************)
-RECURSIVE OutFrom(_, _, _, _)
-OutFrom(j, n, gone, vstarts) ==
-    IF j > n THEN <<>>
-    ELSE (IF j \in vstarts THEN <<0>> ELSE IF j \in gone THEN <<>> ELSE <<j>>)
-         \o OutFrom(j + 1, n, gone, vstarts)
+Range(a, b) == [k \in 1..(IF b > a THEN b - a ELSE 0) |-> a + k - 1]        \* <<a, ..., b-1>>
 
-DeclOutIdx(ps, c) ==
-    LET S == DeclSrc(ps, c)
-        occ == Occurrences(ps, c)
-        rem == Removed(S, c, occ)
-    IN  OutFrom(1, Len(S), TagIdx(S, occ) \cup rem.L \cup rem.R, VarStarts(occ))
+RECURSIVE OutFrom(_, _, _, _, _)
+OutFrom(S, c, occ, j, pe) ==
+    IF j > Len(occ) THEN Range(pe, Len(S) + 1)
+    ELSE LET o == occ[j]
+         IN  Range(pe, o.s - LeftLen(S, c, o, pe))
+             \o (IF o.k = "var" THEN <<0>> ELSE <<>>)
+             \o OutFrom(S, c, occ, j + 1, o.e + RightLen(S, c, o))
+
+DeclOutIdxOf(S, c, occ) == OutFrom(S, c, occ, 1, 1)
+DeclOutIdx(ps, c) == DeclOutIdxOf(DeclSrc(ps, c), c, Occurrences(ps, c))
 
 \* provenance -> characters ("P" = what the variable tag prints), with the
 \* configured newline sequence
-IdxChars(S, idx) == [j \in 1..Len(idx) |-> IF idx[j] = 0 THEN "P" ELSE S[idx[j]]]
-OutChars(S, idx, nl) == WithNl(IdxChars(S, idx), nl)
+RECURSIVE OutCharsFrom(_, _, _, _)
+OutCharsFrom(S, idx, j, nl) ==
+    IF j > Len(idx) THEN <<>>
+    ELSE (IF idx[j] = 0 THEN <<"P">> ELSE IF S[idx[j]] = "n" THEN nl ELSE <<S[idx[j]]>>)
+         \o OutCharsFrom(S, idx, j + 1, nl)
+
+OutChars(S, idx, nl) == OutCharsFrom(S, idx, 1, nl)
 
 DeclOut(ps, c) == OutChars(DeclSrc(ps, c), DeclOutIdx(ps, c), c.nl)
 
